@@ -15,6 +15,9 @@
                                          (1 why) argparse error (64) / spelling the model does not represent (90)
      (7 (component ...))              -> the five path helpers for a script whose resolved file is /c1/c2/...: (script_location
                                          nextflow_dir base_config repository_root main_nf_file), each a list of components
+     (8 tfix mode fixed bs n sched_t) -> script_session_t from the empty tree (entry_t = (k order torn)): (fs' (torn step ...) (invocation ...))
+     (9 (file ...))                   -> valid_meta of the marker files a job directory's glob matches: () | (m)
+     (10 tfix fixed bs fs (step ...)) -> examine_t on the world (fs, torn steps): (0 (ni np meta? screen?)) | (1 why i j) | (3 why)
    Encodings: kind = 0..6 (training test thetas dist selected advanced meta);
    spath = (0) | (1 i j kind); launch = (0 sp) | (1 sp sp) | (2 sp) | (3 sp (i j) excl);
    pdir = (training? test thetas dist selected? advanced? meta? by?);
@@ -120,6 +123,15 @@ Definition as_mode (s : sexp) : option mode :=
 Definition of_steps (l : list (step * pdir)) : sexp :=
   of_list (fun p : step * pdir => SL [of_step (fst p); of_pdir (snd p)]) l.
 
+Definition as_mfile (s : sexp) : option mfile :=
+  match s with
+  | SL [] => Some None
+  | SL [SZ 0] => Some (Some JOther)
+  | SL [SZ 1] => Some (Some (JDict None))
+  | SL [SZ 2; SZ m] => Some (Some (JDict (Some m)))
+  | _ => None
+  end.
+
 Definition run_c19 (orc : oracle) (s : sexp) : sexp :=
   match s with
   | SL [SZ 0; fx; bs; f] =>
@@ -197,6 +209,28 @@ Definition run_c19 (orc : oracle) (s : sexp) : sexp :=
           let '(tf, recs) := script_session_t tfix md fx bs n ([], []) sched in
           SL [of_fs (fst tf); of_list of_step (snd tf); of_list of_irec recs]
       | _, _, _, _, _, _ => bad_input
+      end
+  (* (9 (file ...)) -> valid_meta: what validate_job_dir_and_return_meta answers for a job directory whose glob matches these
+     marker files; file = () unreadable | (0) a JSON document that is no dict | (1) a dict without n_unobserved_plates |
+     (2 m) a dict with n_unobserved_plates = m; answer () None | (m) *)
+  | SL [SZ 9; files] =>
+      match as_listof as_mfile files with
+      | Some d => match valid_meta d with
+                  | Some (JDict (Some m)) => SL [SZ m]
+                  | _ => SL []
+                  end
+      | None => bad_input
+      end
+  (* (10 tfix fixed bs fs (torn step ...)) -> examine_t on the world (fs, torn): (0 (ni np meta? screen?)) | (1 why i j) | (3 why) raised *)
+  | SL [SZ 10; tfix; fx; bs; f; torn] =>
+      match as_bool tfix, as_bool fx, as_Z bs, as_fs f, as_listof as_step torn with
+      | Some tfix, Some fx, Some bs, Some f, Some torn =>
+          match examine_t tfix fx bs (f, torn) with
+          | TOk (ni, np, meta, scr) => SL [SZ 0; SL [SZ ni; SZ np; of_option SZ meta; of_option of_spath scr]]
+          | TNamed w (i, j) => SL [SZ 1; SZ w; SZ i; SZ j]
+          | TRaised w => SL [SZ 3; SZ w]
+          end
+      | _, _, _, _, _ => bad_input
       end
   | _ => bad_input
   end.
